@@ -1,24 +1,24 @@
 (** C02 - Backward iteration yields exactly the primes <= start, then 0. *)
 From Coq Require Import NArith List.
-From PS Require Import Spec.Primes Spec.Cursor Model.Iterator Proofs.IteratorP Proofs.CursorP Proofs.IteratorCor.
+From PS Require Import Spec.Primes Spec.Cursor Model.Iterator Model.PrimeGen Proofs.IteratorP Proofs.CursorP Proofs.PrimeGenP Proofs.IteratorCor.
 Import ListNotations.
 Local Open Scope N_scope.
 
 (** k calls of prev_prime on an iterator positioned at s return the primes
     <= s in descending order, each once, and then 0 on every further call. *)
 Theorem C02_prev_calls_spec :
-  forall nextDist prevDist maxGap kernel cut, kernel_spec kernel -> cut_spec cut ->
+  forall nextDist prevDist maxGap erat cut, erat_spec erat -> cut_spec cut ->
   forall fuel s h k it' rs,
     s <= MAX64 ->
-    run nextDist prevDist maxGap kernel cut fuel (fresh_iter s h) (repeat Prev k) = Done (it', rs) ->
+    run nextDist prevDist maxGap (pg_primes erat) cut fuel (fresh_iter s h) (repeat Prev k) = Done (it', rs) ->
     let P := rev (primes_between 0 s) in
     rs = map Val (firstn k P) ++ repeat (Val 0) (k - length P).
-Proof. exact prev_calls_spec. Qed.
+Proof. exact prev_calls_spec_pg. Qed.
 Print Assumptions C02_prev_calls_spec.
 
 Theorem C02_every_call_returns :
-  forall nextDist prevDist maxGap kernel cut, kernel_spec kernel -> cut_spec cut ->
+  forall nextDist prevDist maxGap erat cut, erat_spec erat -> cut_spec cut ->
   forall os it c, R it c -> Forall op_ok os ->
-    exists it' rs, run nextDist prevDist maxGap kernel cut enough_fuel it os = Done (it', rs).
-Proof. exact iterator_total. Qed.
+    exists it' rs, run nextDist prevDist maxGap (pg_primes erat) cut enough_fuel it os = Done (it', rs).
+Proof. exact iterator_total_pg. Qed.
 Print Assumptions C02_every_call_returns.
